@@ -19,8 +19,8 @@ def _levels(kind: str, a0: int, b0: int, s0: int, i0: int, d1: int, a1: int, b1:
     return (l0, Level(True, pre=a1, post=b1))
 
 
-def _run(prog: Prog, async_conds: int, tv: Any, body_raises: bool) -> Tuple[List[Any], Tuple[Any, ...]]:
-    built = get_built(prog, "factory", async_conds=async_conds)
+def _run(prog: Prog, async_conds: int, tv: Any, body_raises: bool, async_level: Any = None) -> Tuple[List[Any], Tuple[Any, ...]]:
+    built = get_built(prog, "factory", async_conds=async_conds, async_level=async_level)
 
     def body(kw: Dict[str, Any]) -> Any:
         if body_raises:
@@ -94,6 +94,17 @@ def run_diff(kind: str, cmode: int, a0: int, b0: int, s0: int, i0: int, d1: int,
             witness2 = True
         elif eff.posts and not body_raises:
             if out_x != ("value_error",):
+                ok = False
+            witness2 = True
+    # 3. ... also when only the INHERITED contracts (level 0) are coroutine conditions and the overriding level's own
+    #    ones are plain: the first contract evaluated decides
+    if cmode != 0 and d1 == 2 and kind != "func":
+        log_y, out_y = _run(sync_prog, cmode, tv, body_raises, 0)
+        inv_before_fails = kind == "method" and i0 == 1 and not v0
+        base_has_pre = a0 > 0
+        if not inv_before_fails and base_has_pre:
+            # the inherited group is tried first: its coroutine condition must be rejected
+            if out_y != ("value_error",) or ("body",) in log_y:
                 ok = False
             witness2 = True
     witness = out_a[0] == "violation" or witness2
